@@ -1148,3 +1148,21 @@ EXPLAIN['C13'] = ('Kani/CBMC harnesses on the compiled f32/f64 instantiations wi
                   'presence flags: widening preserves bits, narrowing back is the identity, checked narrowing '
                   'succeeds iff is_in_subset for every presence pattern, float lift/extract; Kani\'s pointer, '
                   'bounds and initialisation-related checks cover the MaybeUninit mapping loops')
+
+
+def c11(run):
+    from . import kani_run
+    kani_run.run_group(run, 'C11')
+    c11_e1(run)
+    run.bounds = {'types': 'Dual64, Dual32, Dual2_64, DualVec<f64,2> static and dynamic, Dual2Vec<f64,2>',
+                  'outside': 'methods that panic by design (floor, ceil, round, trunc, fract); SIMD lanes > 1 '
+                             '(only the single-lane view exists for dual numbers over plain floats)'}
+
+
+def c11_e1(run):
+    run.notes.append('E1 part (field methods forward to the generic operations) not registered yet')
+
+
+EXPLAIN['C11'] = ('Kani: the RealField constants of the field-compatible types have the bits of the std constants '
+                  'and no derivative parts; selection methods and the single-lane SIMD view keep every part; '
+                  'E1: field methods are the generic dual operations (EUF-identical traces)')
